@@ -2,16 +2,16 @@
 
 Two correspondence parts:
   check  valid contents x {no corruption, every single corruption kind, double corruptions} plus a separate
-         malformed stream -> DcmMetaExtension.from_json(json.dumps(content)) accepted / raised (exception class),
-         and get_valid_classes() / get_multiplicity(cl) of the same content.
+         malformed stream -> DcmMetaExtension.from_json(json.dumps(content)) accepted / raised (any exception =
+         rejected), and get_valid_classes() / get_multiplicity(cl) of the same content.
   gate   image headers carrying 0-3 extensions (valid / corrupted / foreign ecode), make_empty on or off ->
-         from_runtime_repr on every candidate content and NiftiWrapper(img, make_empty): adopted extension or
-         the exception class.
+         from_runtime_repr on every candidate content and NiftiWrapper(img, make_empty), in memory or after a
+         save/load through a .nii file: adopted extension (position and content) or raised.
 The ORACLE is a direct, LITERAL re-statement of the format rules of the property text (independent of the Coq
 model and of the source tables; Content/Rules.v valid_rules is the same text in Coq): a violation is an accepted
 content that breaks a rule, a rejected content that meets all of them, or a wrapper / loader that adopts content
 which the rules (or the implementation's own check_valid on that very content) reject.  Acceptances that break
-ONLY a rule check_valid does not enforce (GAP_RULES) carry the signature of the open finding N14.
+ONLY a rule check_valid does not enforce (GAP_RULES) carry one of the five signatures of the open finding N14.
 """
 import os, json, copy
 
@@ -23,25 +23,30 @@ THEOREMS = ["C10_iff", "C10_reject_outside", "C10_corruptions", "C10_doubles", "
             "C10_accepts", "C10_gap", "C10_iff_rules",
             "C10_gap_degenerate_refuted", "C10_gap_stale_refuted", "C10_gap_nonpositive_refuted",
             "C10_gap_affine_refuted", "C10_gap_sized_refuted"]
-KNOWN_SIG = "check-valid/unchecked-degenerate-or-stale"      # open finding N14 (known-findings.txt)
+KNOWN_SIG = "check-valid/unchecked-degenerate-or-stale"      # open finding N14 (known-findings.txt): five lines,
+                                                             # KNOWN_SIG + '/' + one of GAP_RULES' suffixes
 ALLOWED_AXIOMS = []
 TABLES = ["t_content"]
-RULE = ("check: base contents = valid extensions of every dimensionality (3-D, 4-D, 5-D, (X,Y,Z,1,V)), every slice "
-        "dim (None, 0, 1, 2), both versions, 0-3 keys in every classification (unicode / empty / class-name-like "
+RULE = ("check: base contents = valid extensions for EVERY combination of dimensionality (3-D, 4-D, 5-D, (X,Y,Z,1,V)) and "
+        "slice dim (None, 0, 1, 2), both versions, 0-3 keys in every classification (unicode / empty / class-name-like "
         "keys; values of every JSON type), extra top-level keys and stale dictionaries of classes that are not "
-        "valid for the shape; x no corruption, EVERY single corruption of the nine kinds of the property "
-        "(drop field / sub-dictionary, add / remove a value, duplicate a key into every other classification, slice "
-        "dim, shape length, shape entry, affine shape, version), random double corruptions (thorough: exhaustive "
-        "singles and capped-exhaustive doubles over 30 bases); separate malformed stream: random sub-values replaced "
-        "by wild JSON values, kept when inside the model's exact domain; plus eleven contents that show the five blind "
-        "spots of check_valid (open finding N14) and corpus/C10/gap_*.json. gate: 0-3 extensions per header (valid, "
-        "corrupted in every order, foreign ecode), make_empty on/off, injected as raw bytes or as runtime object. "
-        "non-trivial = the content has a key in a classification of multiplicity > 1, or an error branch was taken")
+        "valid for the shape; x no corruption, single corruptions of every kind of the property (drop field / "
+        "sub-dictionary; add / remove one or two values at the front, middle or end; duplicate a key into every other "
+        "classification; slice dim; shape length; shape entry incl. zero and negative; affine shape and entry type; "
+        "version; list replaced by a str/dict of the same len()), random double corruptions plus one double for EVERY "
+        "unordered pair of corruption kinds (thorough: exhaustive singles, capped-exhaustive doubles over 32 bases); "
+        "separate malformed stream: random sub-values replaced by wild JSON values, kept when inside the model's domain; "
+        "plus eleven contents that show the five blind spots of check_valid (open finding N14, five signatures) and "
+        "corpus/C10/gap_*.json. gate: 0-3 extensions per header (valid, corrupted in every order, foreign ecode), "
+        "make_empty on/off, injected as raw bytes or as runtime object, wrapped in memory or after nibabel save/load of "
+        "a .nii file. Compared: raised vs not raised (no exception class), values exactly. non-trivial = the content "
+        "holds a key in a valid classification of multiplicity > 1")
 TRUSTED_BASE = [
     "Section variable `parse : str -> res jv` in Content/Model.v standing for json.loads (from_json = parse then check_valid); "
     "json itself is the subject of C09",
     "argument `empty` of wrapper_init standing for DcmMetaExtension.make_empty(img.shape, best affine, None, slice dim) "
-    "(nibabel header access + make_empty are external to this model; the harness passes what make_empty really returns)",
+    "(nibabel header access + make_empty are external to this model); in the correspondence the content the wrapper "
+    "ADOPTED (observed through ext.get_content()) is what the model's check_valid is applied to",
     "numpy: np.array(x).shape is modelled by Content.Model.np_shape (scalar -> (), equal-shaped items -> n :: s, ragged -> "
     "ValueError); checked against numpy 2.x on 200000 random nested values of depth <= 4 and by every run's affine corruptions",
     "Python value semantics of Content/PyVal.v (True/False are the ints 1/0, float == by repr, len() of list/str/dict)",
@@ -52,21 +57,28 @@ ASSUMPTIONS = [
     "TWO rule sets: Content/Rules.v valid_rules = the property's rules taken literally; Content/Spec.v valid_spec = what "
     "check_valid inspects. C10_iff is about valid_spec; C10_accepts (valid_rules -> accepted) needs no domain hypothesis; "
     "C10_gap / C10_gap_*_refuted show that the property's literal iff FAILS on the real code in exactly five situations "
-    "(open finding N14, signature check-valid/unchecked-degenerate-or-stale): a varying classification of multiplicity 1 "
+    "(open finding N14): a varying classification of multiplicity 1 "
     "is not inspected; dictionaries of classifications not valid for the shape are ignored (a key may be repeated there); "
     "a non-positive shape entry passes; affine entries need not be numbers; a str/dict whose len() is the multiplicity "
-    "passes for a list of values. C10_iff_rules: outside these situations check_valid is exact for the literal rules",
+    "passes for a list of values (signatures check-valid/unchecked-degenerate-or-stale/{degenerate,stale,nonpositive,"
+    "affine,sized}, each hit by corpus/C10/gap_<name>.json on every run). C10_iff_rules: outside these situations "
+    "check_valid is exact for the literal rules",
     "wf_domain (hypothesis of C10_iff / C10_iff_rules): dcmmeta_shape, when it is a list, has non-zero int entries (no "
     "bools, no floats), is not a str/dict, and the entries content[base], content[base][sub] of the classifications valid "
     "for the shape are dicts. Outside it the real code is even laxer: a float shape entry computes float multiplicities, a "
     "str/dict 'shape' is iterated (tuple('abc') has length 3), a zero entry makes a multiplicity 0 (class must be empty), "
     "a classification entry that is a LIST of strings is taken for a key set by the uniqueness loop. The oracle is silent "
-    "there and the generator does not go there",
-    "model exactness (exception class as well as accept/reject) holds when shape entries in use are ints/bools, "
-    "dcmmeta_slice_dim is not a float and present classification entries are dicts; the check compares the class for valid "
-    "contents, single corruptions and the blind-spot cases, and only accept/reject for double corruptions, the malformed "
-    "stream and a float slice dim (always a rejection), so that re-ordering independent tests inside check_valid is not "
-    "reported",
+    "on float entries / non-list shapes / non-dict entries and the generator does not go there",
+    "exception classes are NOT compared (the property says 'rejected'): model vs implementation and the oracle use "
+    "raised / not raised, any Exception subclass is a refusal; the model's err values (InvalidExtensionError, KeyError, "
+    "TypeError ...) were exact on 1465/1465 cases when they were compared and are kept as documentation only. The model "
+    "agrees with the code on accept/reject when shape entries in use are ints/bools (zero and negative included) and "
+    "the present classification entries are dicts; other contents are not generated",
+    "zero shape entries ARE generated (shape-entry corruption, malformed stream): the model is exact there; a zero entry "
+    "is a non-positive dimension for the literal rules, so an accepted one is filed under the nonpositive signature of N14",
+    "C10_gap_*_refuted, C10_gate_ext_refuted and SRC_check_valid are statements about the code AS IT IS: repairing a blind "
+    "spot of N14 upstream makes the corresponding witness theorem (and the source tie) fail and the matching open: line "
+    "disappear - that alarm is intended and means the finding, the model and Content/Spec.v must be updated together",
     "an unknown or missing dcmmeta_version raises KeyError (not InvalidExtensionError): NiftiWrapper then propagates "
     "KeyError instead of skipping the candidate; a ragged affine raises ValueError. Both are rejections",
 ]
@@ -113,7 +125,8 @@ def rule_mult(shape, sd, cl):
 
 
 # Rules that check_valid does not enforce (open finding N14): breaking ONLY such a rule is the known finding.
-GAP_RULES = ('dim-not-positive', 'affine-not-numeric', 'degenerate-count', 'sized-non-list', 'stale-duplicate')
+GAP_RULES = {'degenerate-count': 'degenerate', 'stale-duplicate': 'stale', 'dim-not-positive': 'nonpositive',
+             'affine-not-numeric': 'affine', 'sized-non-list': 'sized'}
 
 
 def rules(c):
@@ -223,7 +236,8 @@ def judge(content, accepted, who, err=None):
     if verdict is None:
         return None
     if accepted and not verdict:
-        sig = KNOWN_SIG if rule in GAP_RULES else 'accepts-invalid/%s' % rule
+        # one signature per blind spot: the suffix is the literal rule that is broken (and nothing else is broken)
+        sig = (KNOWN_SIG + '/' + GAP_RULES[rule]) if rule in GAP_RULES else 'accepts-invalid/%s' % rule
         return ('%s ACCEPTED a content that breaks the rule: %s' % (who, rule), sig)
     if not accepted and verdict:
         return ('%s REJECTED (%s) a content that meets every format rule' % (who, err), 'rejects-valid')
@@ -370,7 +384,8 @@ def fit_value(c, cl):
     return list(range(m))
 
 
-AFFINE_KINDS = ['3x4', '4x3', '5x5', '4x4x1', 'ragged', 'empty', 'none', 'scalar', 'flat16', 'row-scalar', '4x4x2-ragged']
+AFFINE_KINDS = ['3x4', '4x3', '5x5', '4x4x1', 'ragged', 'empty', 'none', 'scalar', 'flat16', 'row-scalar', '4x4x2-ragged',
+                'str-entry', 'none-entry']
 VERSION_VALUES = ['swap', 0.7, 1, '0.6', None, [0.6], True, 0.55]
 SLICE_DIM_VALUES = [-1, 3, 7, None, 0, 1, 2, True, '1', 1.5, [1]]
 
@@ -391,9 +406,15 @@ def enumerate_ops(c):
             continue
         for k, v in d.items():
             if isinstance(v, list):
-                ops.append(['add_value', b, s, k])
-                if v:
-                    ops.append(['remove_value', b, s, k])
+                # add / remove one or two values at the front, in the middle or at the end
+                for pos in ('front', 'mid', 'end'):
+                    for n in (1, 2):
+                        ops.append(['add_value', b, s, k, pos, n])
+                        if len(v) >= n:
+                            ops.append(['remove_value', b, s, k, pos, n])
+                if len(v) >= 2:
+                    ops.append(['value_type', b, s, k, 'str'])
+                    ops.append(['value_type', b, s, k, 'dict'])
             for b2, s2 in CLASSES:
                 if (b2, s2) != (b, s) and class_dict(c, b2, s2) is not None:
                     ops.append(['dup_key', b, s, k, b2, s2, 'fit'])
@@ -408,7 +429,7 @@ def enumerate_ops(c):
                 ops.append(['shape_len', n])
         for i, x in enumerate(sh):
             if is_int(x):
-                for v in (x + 1, x + 2, 1):
+                for v in (x + 1, x + 2, 1, -x, 0):
                     if v != x:
                         ops.append(['shape_entry', i, v])
     if 'dcmmeta_affine' in c:
@@ -424,6 +445,10 @@ def same(a, b):
     return type(a) is type(b) and a == b
 
 
+def _pos(v, pos):
+    return {'front': 0, 'mid': len(v) // 2, 'end': len(v)}[pos]
+
+
 def apply_op(c, op):
     c = copy.deepcopy(c)
     kind = op[0]
@@ -433,9 +458,24 @@ def apply_op(c, op):
         elif kind == 'drop_sub':
             del c[op[1]][op[2]]
         elif kind == 'add_value':
-            c[op[1]][op[2]][op[3]].append(99)
+            v = c[op[1]][op[2]][op[3]]
+            if not isinstance(v, list):
+                raise NotApplicable()
+            pos, n = (op[4], op[5]) if len(op) > 5 else ('end', 1)
+            i = _pos(v, pos)
+            v[i:i] = [99] * n
         elif kind == 'remove_value':
-            c[op[1]][op[2]][op[3]].pop()
+            v = c[op[1]][op[2]][op[3]]
+            pos, n = (op[4], op[5]) if len(op) > 5 else ('end', 1)
+            if not isinstance(v, list) or len(v) < n:
+                raise NotApplicable()
+            i = min(_pos(v, pos), len(v) - n)
+            del v[i:i + n]
+        elif kind == 'value_type':
+            v = c[op[1]][op[2]][op[3]]
+            if not isinstance(v, list):
+                raise NotApplicable()
+            c[op[1]][op[2]][op[3]] = ('x' * len(v)) if op[4] == 'str' else dict(('m%d' % i, x) for i, x in enumerate(v))
         elif kind == 'dup_key':
             _, b, s, k, b2, s2, mode = op
             v = c[b][s][k]
@@ -460,12 +500,17 @@ def apply_op(c, op):
             a = c['dcmmeta_affine']
             row = [1, 0, 0, 0]
             k = op[1]
-            c['dcmmeta_affine'] = {
-                '3x4': [list(row) for _ in range(3)], '4x3': [[1, 0, 0] for _ in range(4)],
-                '5x5': [[0] * 5 for _ in range(5)], '4x4x1': [[[0], [0], [0], [1]] for _ in range(4)],
-                'ragged': [list(row), list(row), list(row), [0, 0, 1]], 'empty': [], 'none': None, 'scalar': 1.0,
-                'flat16': [0.0] * 16, 'row-scalar': [list(row), list(row), 5, list(row)],
-                '4x4x2-ragged': [[[0, 1], [0, 1], [0, 1], [0]] for _ in range(4)]}[k]
+            if k in ('str-entry', 'none-entry'):
+                if not (isinstance(a, list) and len(a) == 4 and all(isinstance(r, list) and len(r) == 4 for r in a)):
+                    raise NotApplicable()
+                a[1][2] = 'x' if k == 'str-entry' else None
+            else:
+                c['dcmmeta_affine'] = {
+                    '3x4': [list(row) for _ in range(3)], '4x3': [[1, 0, 0] for _ in range(4)],
+                    '5x5': [[0] * 5 for _ in range(5)], '4x4x1': [[[0], [0], [0], [1]] for _ in range(4)],
+                    'ragged': [list(row), list(row), list(row), [0, 0, 1]], 'empty': [], 'none': None, 'scalar': 1.0,
+                    'flat16': [0.0] * 16, 'row-scalar': [list(row), list(row), 5, list(row)],
+                    '4x4x2-ragged': [[[0, 1], [0, 1], [0, 1], [0]] for _ in range(4)]}[k]
         elif kind == 'version':
             v = op[1]
             if v == 'swap':
@@ -479,11 +524,13 @@ def apply_op(c, op):
     return c
 
 
+OP_KINDS = {'drop_field': 'drop-field', 'drop_sub': 'drop-sub', 'add_value': 'add-value', 'remove_value': 'remove-value',
+            'value_type': 'value-type', 'dup_key': 'dup-key', 'slice_dim': 'slice-dim', 'shape_len': 'shape-len',
+            'shape_entry': 'shape-entry', 'affine': 'affine', 'version': 'version'}
+
+
 def op_kind(op):
-    k = op[0]
-    return {'drop_field': 'drop-field', 'drop_sub': 'drop-sub', 'add_value': 'add-value', 'remove_value': 'remove-value',
-            'dup_key': 'dup-key', 'slice_dim': 'slice-dim', 'shape_len': 'shape-len', 'shape_entry': 'shape-entry',
-            'affine': 'affine', 'version': 'version'}[k]
+    return OP_KINDS[op[0]]
 
 
 # the blind spots of check_valid (open finding N14) ------------------------------------------------
@@ -599,14 +646,27 @@ ERRMAP = None
 
 
 def errname(e):
+    """Exception -> err enum name.  Only RAISED vs NOT RAISED is compared (the property says "rejected"); the name is
+    kept for the distribution table.  isinstance, so that subclasses count as their base; any other Exception is a
+    refusal too (ECrash)."""
     global ERRMAP
     if ERRMAP is None:
         from dcmstack.dcmmeta import InvalidExtensionError, MissingExtensionError
         ERRMAP = [(InvalidExtensionError, 'EInvalidExt'), (MissingExtensionError, 'EMissingExt'), (KeyError, 'EKey'),
                   (IndexError, 'EIndex'), (TypeError, 'EType'), (ValueError, 'EValue'), (AttributeError, 'EAttr')]
     for cls, name in ERRMAP:
-        if type(e) is cls:
+        if isinstance(e, cls):
             return name
+    return 'ECrash'
+
+
+def crash_msg(part, obs):
+    """A crash / harness marker is never silently None (AUDIT-2 rule 3)."""
+    if isinstance(obs, dict) and 'crash' in obs:
+        return ('the harness could not observe the implementation: unexpected %s (%s)'
+                % (obs.get('crash'), str(obs.get('msg'))[:200]), 'crash/%s/%s' % (part, obs.get('crash')))
+    if not isinstance(obs, dict):
+        return ('no observation', 'crash/%s/no-observation' % part)
     return None
 
 
@@ -615,7 +675,8 @@ def cres_unit(r):
 
 
 def content_has_varying(c):
-    v, _ = rules(c)
+    """The content holds at least one key in a classification that is valid for its shape and has multiplicity > 1
+    (so that the value-count and uniqueness clauses have something to look at)."""
     if not isinstance(c, dict):
         return False
     sh, sd = c.get('dcmmeta_shape'), c.get('dcmmeta_slice_dim')
@@ -660,6 +721,11 @@ def shrink_content(c):
 # ------------------------------------------------------------------------------------------------
 # part 1: check
 
+def same_verdict(c0, c1):
+    """Shrinking must stay on the same failure: same literal-rules verdict and same broken rule."""
+    return rules(c0) == rules(c1)
+
+
 class Check:
     NAME = "check"
     CORR_REQUIRE = "From DV Require Import Common.Str Common.Jv Content.PyVal Content.Model Content.Corr."
@@ -672,73 +738,95 @@ class Check:
 
     @staticmethod
     def _mk(kind, c, ops=None):
-        dc = domain_class(c)
-        if dc == 'outside':
+        if domain_class(c) == 'outside':
             return None
-        # The exception CLASS is compared only where it does not depend on the order in which independent
-        # tests are made: valid contents and single corruptions of a valid content (one fault).  For double
-        # corruptions and the malformed stream (several faults at once) only accept/reject is compared, so
-        # that re-ordering independent tests of check_valid is not reported.
-        one_fault = kind == 'valid' or kind.startswith('single:') or kind.startswith('gap:')
-        return {'kind': kind, 'content': c, 'ops': ops or [], 'cmp_err': dc == 'exact' and one_fault}
+        return {'kind': kind, 'content': c, 'ops': ops or []}
 
     @staticmethod
     def gen_cases(rng, tier):
         thorough = tier == 'thorough'
         cases = []
         bases = []
-        # a fixed grid first: every dimensionality x slice dim x version at least once
+        # EVERY (dimensionality, singleton-time, slice dim) combination gets a base content and its corruptions
         grid = []
         for nd, t1 in ((3, None), (4, None), (5, False), (5, True)):
             for sd in (None, 0, 1, 2):
                 grid.append((nd, t1, sd))
         rng.shuffle(grid)
-        nb = 30 if thorough else 14
+        nb = 32 if thorough else 16
         for i in range(nb):
             nd, t1, sd = grid[i % len(grid)]
-            ver = 0.5 if i % 2 == 0 else 0.6
-            nk = None
+            ver = 0.5 if (i + i // len(grid)) % 2 == 0 else 0.6
             b = None
             for attempt in range(20):
-                b = gen_base(rng, nd=nd, sd=sd, ver=ver, t1=t1, nkeys=nk, dims=(1, 2, 3) if nd == 5 else (1, 2, 3, 4))
+                b = gen_base(rng, nd=nd, sd=sd, ver=ver, t1=t1, dims=(1, 2, 3) if nd == 5 else (1, 2, 3, 4))
                 if sd is None or content_has_varying(b):
                     break
             bases.append(b)
         # more random valid contents (no corruption)
         for i in range(120 if thorough else 40):
             cases.append(Check._mk('valid', gen_base(rng)))
+        base_ops = []
         for bi, b in enumerate(bases):
             cases.append(Check._mk('valid', b))
             ops = enumerate_ops(b)
+            base_ops.append(ops)
             singles = ops
             if not thorough:
-                # quick: every kind at least twice per base, the rest sampled
+                # quick: every kind several times per base, the rest sampled
                 bykind = {}
                 for op in ops:
                     bykind.setdefault(op_kind(op), []).append(op)
                 singles = []
                 for k, lst in sorted(bykind.items()):
                     rng.shuffle(lst)
-                    singles += lst[:6]
+                    singles += lst[:5]
             for op in singles:
                 try:
                     cases.append(Check._mk('single:' + op_kind(op), apply_op(b, op), [op]))
                 except NotApplicable:
                     pass
-            # doubles
+            # random doubles
             if thorough:
                 pairs = [(o1, o2) for o1 in ops for o2 in ops if o1 is not o2]
                 rng.shuffle(pairs)
-                pairs = pairs[:1200]
+                pairs = pairs[:1000]
             else:
-                pairs = [(rng.choice(ops), rng.choice(ops)) for _ in range(22)]
+                pairs = [(rng.choice(ops), rng.choice(ops)) for _ in range(10)]
             for o1, o2 in pairs:
                 try:
                     c2 = apply_op(apply_op(b, o1), o2)
                 except NotApplicable:
                     continue
                 cases.append(Check._mk('double', c2, [o1, o2]))
-        # the known blind spots (each run must print the KNOWN-FINDING line of N14)
+        # systematic doubles: EVERY unordered pair of corruption kinds (same kind twice included), in both orders
+        kinds = sorted(set(OP_KINDS.values()))
+        have = set(json.dumps(k['content']) for k in cases if k is not None)
+        for i1, k1 in enumerate(kinds):
+            for k2 in kinds[i1:]:
+                for rep in range(3 if thorough else 1):
+                    for attempt in range(80):
+                        bi = rng.randrange(len(bases))
+                        l1 = [o for o in base_ops[bi] if op_kind(o) == k1]
+                        l2 = [o for o in base_ops[bi] if op_kind(o) == k2]
+                        if not l1 or not l2:
+                            continue
+                        o1, o2 = rng.choice(l1), rng.choice(l2)
+                        if o1 == o2:
+                            continue
+                        if rng.random() < 0.5:
+                            o1, o2 = o2, o1
+                        try:
+                            c2 = apply_op(apply_op(bases[bi], o1), o2)
+                        except NotApplicable:
+                            continue
+                        k = Check._mk('double', c2, [o1, o2])
+                        h = json.dumps(c2)
+                        if k is not None and h not in have:      # (a second change of the same field is a single)
+                            have.add(h)
+                            cases.append(k)
+                            break
+        # the known blind spots (each run must print the five KNOWN-FINDING lines of N14)
         for kind, c in gap_cases(rng):
             cases.append(Check._mk(kind, c))
         # malformed stream
@@ -774,13 +862,10 @@ class Check:
         try:
             DcmMetaExtension.from_json(s)
             obs['r'] = 'ok'
-        except Exception as e:
-            n = errname(e)
-            if n is None:
-                raise
-            obs['r'] = n
-            obs['err'] = n
-        # get_valid_classes / get_multiplicity on the same content (where their result is a plain int)
+        except Exception as e:           # any exception is a refusal (the property names no class)
+            obs['r'] = obs['err'] = errname(e)
+        # get_valid_classes / get_multiplicity on the same content (where their result is a plain int), asked for the
+        # six classifications of the FORMAT (not read from the implementation)
         sh = c.get('dcmmeta_shape') if isinstance(c, dict) else None
         sd = c.get('dcmmeta_slice_dim') if isinstance(c, dict) else None
         if isinstance(sh, list) and all(isinstance(x, int) for x in sh) and (sd is None or isinstance(sd, int)):
@@ -788,24 +873,19 @@ class Check:
             try:
                 obs['classes'] = [list(x) for x in ext.get_valid_classes()]
             except Exception as e:
-                n = errname(e)
-                if n is None:
-                    raise
-                obs['classes'] = n
+                obs['classes'] = errname(e)
             ms = []
-            for cl in DcmMetaExtension.classifications:
+            for cl in CLASSES:
                 try:
-                    m = ext.get_multiplicity(cl)
-                    if not isinstance(m, int):
+                    m = ext.get_multiplicity(tuple(cl))
+                    if not isinstance(m, int):        # (a bool shape entry gives a bool: the int 1/0)
                         raise RuntimeError('multiplicity is not an int: %r' % (m,))
-                    ms.append(int(m))
+                    ms.append([cl[0], cl[1], int(m)])
+                except RuntimeError:
+                    raise
                 except Exception as e:
-                    n = errname(e)
-                    if n is None:
-                        raise
-                    ms.append(n)
+                    ms.append([cl[0], cl[1], errname(e)])
             obs['mults'] = ms
-            obs['table_classes'] = [list(x) for x in DcmMetaExtension.classifications]
         return obs
 
     @staticmethod
@@ -817,30 +897,38 @@ class Check:
             v = obs['classes']
             oc = '(Some %s)' % ('(Err %s)' % v if isinstance(v, str) else
                                 '(Ok %s)' % clist(cpair(cstr(x[0]), cstr(x[1])) for x in v))
-        om = 'None'
-        if 'mults' in obs:
-            om = '(Some %s)' % clist(('(Err %s)' % m) if isinstance(m, str) else ('(Ok %s)' % cz(m)) for m in obs['mults'])
-        return 'Corr.mk_case %s %s %s %s %s' % (cjv(case['content']), cres_unit(obs['r']), cbool(bool(case.get('cmp_err', True))), oc, om)
+        om = clist(cpair(cpair(cstr(b), cstr(s_)), ('(Err %s)' % m) if isinstance(m, str) else ('(Ok %s)' % cz(m)))
+                   for b, s_, m in obs.get('mults', []))
+        return 'Corr.mk_case %s %s %s %s' % (cjv(case['content']), cres_unit(obs['r']), oc, om)
+
+    @staticmethod
+    def _judge(case, obs):
+        cm = crash_msg('check', obs)
+        if cm:
+            return cm
+        if 'r' not in obs:
+            return ('no observation', 'crash/check/no-observation')
+        return judge(case['content'], obs['r'] == 'ok', 'check_valid / from_json', obs['r'])
 
     @staticmethod
     def oracle(case, obs):
-        if not isinstance(obs, dict) or 'r' not in obs:
-            return None
-        j = judge(case['content'], obs['r'] == 'ok', 'check_valid / from_json', obs['r'])
+        j = Check._judge(case, obs)
         return j[0] if j else None
 
     @staticmethod
     def signature(case, obs, msg):
-        j = judge(case['content'], obs['r'] == 'ok', 'check_valid / from_json', obs['r'])
+        j = Check._judge(case, obs)
         return j[1] if j else 'none'
 
     @staticmethod
     def nontrivial(case, obs):
-        return content_has_varying(case['content']) or (isinstance(obs, dict) and obs.get('r') != 'ok')
+        return content_has_varying(case['content'])
 
     @staticmethod
     def shrink(case):
         for c in shrink_content(case['content']):
+            if not same_verdict(case['content'], c):
+                continue
             k = Check._mk(case.get('kind', '?'), c, case.get('ops'))
             if k is not None:
                 yield k
@@ -848,6 +936,20 @@ class Check:
 
 # ------------------------------------------------------------------------------------------------
 # part 2: gate
+
+def new_extension(klass, ecode, obj):
+    """An extension object whose runtime content is `obj`, without going through check_valid: the public constructor
+    argument of nibabel >= 5.3, else the attribute older nibabel versions use (ONE helper, with fallbacks)."""
+    try:
+        return klass(ecode, object=obj)
+    except TypeError:
+        ext = klass(ecode, b'{}')
+        try:
+            ext._content = obj
+        except AttributeError:
+            ext._object = obj
+        return ext
+
 
 class Gate:
     NAME = "gate"
@@ -862,7 +964,7 @@ class Gate:
     @staticmethod
     def gen_cases(rng, tier):
         thorough = tier == 'thorough'
-        n = 900 if thorough else 150
+        n = 900 if thorough else 160
         cases = []
         while len(cases) < n:
             nd = rng.choice([3, 4, 5])
@@ -870,7 +972,7 @@ class Gate:
             if nd == 5 and rng.random() < 0.3:
                 shape[3] = 1
             exts = []
-            pattern = rng.choice(['v', 'c', 'cv', 'vc', 'cc', 'vv', 'fvc', 'cfv', 'ccv', '', 'f', 'cvc', 'w'])
+            pattern = rng.choice(['v', 'c', 'cv', 'vc', 'cc', 'vv', 'fvc', 'cfv', 'ccv', '', 'f', 'cvc', 'w', 'wv'])
             ok = True
             for ch in pattern:
                 b = gen_base(rng, nd=rng.choice([3, 4, 5]), nkeys=rng.choice([0, 1, 2]), dims=(1, 2, 3))
@@ -903,16 +1005,17 @@ class Gate:
                     exts.append({'code': rng.choice([4, 6]), 'content': rng.choice([b, "hello", [1, 2]]), 'inject': 'raw'})
             if not ok:
                 continue
-            # exception class compared unless a candidate carries several faults at once (see Check._mk)
-            cmp_err = all(domain_class(e['content']) == 'exact' for e in exts if e['code'] == 0) and 'w' not in pattern
             cases.append({'kind': 'gate:' + (pattern or 'none'), 'img_shape': shape, 'exts': exts,
-                          'make_empty': rng.random() < 0.4, 'img_slice_dim': rng.choice([None, 0, 1, 2]), 'cmp_err': cmp_err})
+                          'make_empty': rng.random() < 0.4, 'img_slice_dim': rng.choice([None, 0, 1, 2]),
+                          # half of the images go through a .nii file (nibabel save / load) before they are wrapped
+                          'via': rng.choice(['memory', 'file'])})
         return cases
 
     @staticmethod
     def run_impl(case):
         import io
         import contextlib
+        import tempfile
         import numpy as np
         import nibabel as nb
         from nibabel.nifti1 import Nifti1Extension
@@ -923,50 +1026,46 @@ class Gate:
         if case.get('img_slice_dim') is not None:
             hdr.set_dim_info(slice=case['img_slice_dim'])
         obs = {'rt': []}
-        objs = []
         for e in case['exts']:
             raw = json.dumps(e['content']).encode('utf-8')
             if e['code'] == dcm_meta_ecode:
                 if e['inject'] == 'object':
-                    ext = DcmMetaExtension(dcm_meta_ecode, b'{}')
-                    ext._object = copy.deepcopy(e['content'])     # nibabel 5: _content is a view of _object
+                    ext = new_extension(DcmMetaExtension, dcm_meta_ecode, copy.deepcopy(e['content']))
                 else:
                     ext = DcmMetaExtension(dcm_meta_ecode, raw)
                 try:
                     DcmMetaExtension.from_runtime_repr(copy.deepcopy(e['content']))
                     obs['rt'].append('ok')
                 except Exception as ex:
-                    n = errname(ex)
-                    if n is None:
-                        raise
-                    obs['rt'].append(n)
+                    obs['rt'].append(errname(ex))
             else:
                 ext = Nifti1Extension(e['code'], raw)
                 obs['rt'].append(None)
-            objs.append(ext)
             hdr.extensions.append(ext)
-        empty = DcmMetaExtension.make_empty(img.shape, hdr.get_best_affine(), None, hdr.get_dim_info()[2])
-        obs['empty'] = json.loads(json.dumps(empty._content))
+        tmp = None
         try:
-            with contextlib.redirect_stdout(io.StringIO()):
-                w = NiftiWrapper(img, case['make_empty'])
-        except Exception as ex:
-            n = errname(ex)
-            if n is None:
-                raise
-            obs['wrap'] = n
-            obs['err'] = n
-        else:
-            idx = [i for i, o in enumerate(objs) if o is w.meta_ext]
-            obs['wrap'] = 'ok'
-            obs['adopted'] = idx[0] if idx else None
-            # the implementation's own verdict on what the wrapper adopted
+            if case.get('via') == 'file':
+                tmp = tempfile.TemporaryDirectory(dir=os.environ.get('VERIF_WORK') or None)
+                path = os.path.join(tmp.name, 'gate.nii')
+                nb.save(img, path)
+                img = nb.load(path)
+                if len(img.header.extensions) != len(case['exts']):
+                    raise RuntimeError('nibabel save/load changed the number of extensions')
+            objs = list(img.header.extensions)
             try:
-                w.meta_ext.check_valid()
-                obs['adopted_check'] = 'ok'
+                with contextlib.redirect_stdout(io.StringIO()):
+                    w = NiftiWrapper(img, case['make_empty'])
             except Exception as ex:
-                obs['adopted_check'] = errname(ex) or type(ex).__name__
-            obs['adopted_content'] = json.loads(json.dumps(w.meta_ext._content))
+                obs['wrap'] = obs['err'] = errname(ex)
+            else:
+                idx = [i for i, o in enumerate(objs) if o is w.meta_ext]
+                obs['wrap'] = 'ok'
+                obs['adopted'] = idx[0] if idx else None
+                # what the wrapper adopted, through the public accessor of the extension
+                obs['adopted_content'] = json.loads(json.dumps(w.meta_ext.get_content()))
+        finally:
+            if tmp is not None:
+                tmp.cleanup()
         return obs
 
     @staticmethod
@@ -976,16 +1075,18 @@ class Gate:
         exts = clist(cpair(cz(e['code']), cjv(e['content'])) for e in case['exts'])
         rt = clist('None' if r is None else '(Some %s)' % cres_unit(r) for r in obs['rt'])
         if obs['wrap'] == 'ok':
-            w = '(Ok %s)' % copt(obs['adopted'], cnat)
+            w = '(Ok %s)' % cpair(copt(obs['adopted'], cnat), cjv(obs['adopted_content']))
         else:
             w = '(Err %s)' % obs['wrap']
-        return 'Corr.mk_gcase %s %s %s %s %s %s' % (exts, cbool(case['make_empty']), cjv(obs['empty']), rt, w,
-                                                    cbool(bool(case.get('cmp_err', True))))
+        return 'Corr.mk_gcase %s %s %s %s' % (exts, cbool(case['make_empty']), rt, w)
 
     @staticmethod
     def _judge(case, obs):
-        if not isinstance(obs, dict) or 'wrap' not in obs:
-            return None
+        cm = crash_msg('gate', obs)
+        if cm:
+            return cm
+        if 'wrap' not in obs:
+            return ('no observation', 'crash/gate/no-observation')
         found = []
         for e, r in zip(case['exts'], obs['rt']):
             if r is None:
@@ -994,18 +1095,29 @@ class Gate:
             if j:
                 found.append(j)
         if obs['wrap'] == 'ok':
-            if obs.get('adopted_check') != 'ok':
-                found.append(('NiftiWrapper ACCEPTED an extension that its own check_valid rejects (%s)'
-                              % obs.get('adopted_check'), 'gate/wrapper'))
-            j = judge(obs.get('adopted_content'), True, 'NiftiWrapper')
-            if j:
-                found.append((j[0], j[1] if j[1] == KNOWN_SIG else 'gate/wrapper'))
-            if obs.get('adopted') is None and not case['make_empty']:
+            adopted = obs.get('adopted')
+            dcm = [i for i, e in enumerate(case['exts']) if e['code'] == 0]
+            if adopted is not None:
+                # ground truth = the case: the adopted extension must be a dcmmeta candidate of the header, hold that
+                # candidate's content, and that content must meet the rules (and be accepted by the check on its own)
+                if adopted not in dcm:
+                    found.append(('NiftiWrapper adopted extension %d, which is not a DcmMeta candidate' % adopted, 'gate/wrapper'))
+                else:
+                    if obs['rt'][adopted] != 'ok':
+                        found.append(('NiftiWrapper ACCEPTED an extension that check_valid rejects on its own (%s)'
+                                      % obs['rt'][adopted], 'gate/wrapper'))
+                    if obs.get('adopted_content') != json.loads(json.dumps(case['exts'][adopted]['content'])):
+                        found.append(('the extension NiftiWrapper adopted does not hold the content of candidate %d'
+                                      % adopted, 'gate/wrapper'))
+            elif not case['make_empty']:
                 found.append(('NiftiWrapper ACCEPTED an image without adopting any of its extensions although '
                               'make_empty is off', 'gate/wrapper'))
-        # a failure that is not the known finding takes precedence
+            j = judge(obs.get('adopted_content'), True, 'NiftiWrapper')
+            if j:
+                found.append((j[0], j[1] if j[1].startswith(KNOWN_SIG) else 'gate/wrapper'))
+        # a failure that is not a known finding takes precedence (collect, then prefer the unknown)
         for j in found:
-            if j[1] != KNOWN_SIG:
+            if not j[1].startswith(KNOWN_SIG):
                 return j
         return found[0] if found else None
 
@@ -1021,7 +1133,7 @@ class Gate:
 
     @staticmethod
     def nontrivial(case, obs):
-        return len([e for e in case['exts'] if e['code'] == 0]) >= 1
+        return any(e['code'] == 0 and content_has_varying(e['content']) for e in case['exts'])
 
     @staticmethod
     def shrink(case):
@@ -1032,9 +1144,15 @@ class Gate:
         for i, e in enumerate(case['exts']):
             if e['code'] == 0:
                 for c in shrink_content(e['content']):
+                    if not same_verdict(e['content'], c):
+                        continue
                     d = copy.deepcopy(case)
                     d['exts'][i]['content'] = c
                     yield d
+        if case.get('via') == 'file':
+            d = copy.deepcopy(case)
+            d['via'] = 'memory'
+            yield d
 
 
 PARTS = [Check, Gate]
